@@ -459,6 +459,10 @@ class Heap(object):
             return self.maps[key]
         if key.startswith("tmp#"):
             return self.ensure_ghost_bool(key)
+        if key == "temp#has":
+            a = ZMap(z3.Const("%s@%s" % (key, self.tag), z3.ArraySort(Ref, z3.ArraySort(Str, z3.BoolSort()))))
+            self.maps[key] = a
+            return a
         if "#" in key:
             f, suf = key.split("#", 1)
             if suf == "nan":
